@@ -614,6 +614,16 @@ int main(int argc, char **argv) {
   };
   add_space(R, "varint_sub", sub_and_files, [](const Entry &e) { return (uint64_t)e.bytes.size() * kNumVarintPatterns; }, varint, mode0, true, false);
   add_space(R, "varint_all", all_small, [](const Entry &e) { return (uint64_t)e.bytes.size() * kNumVarintPatterns; }, varint, modes_q, false, true);
+  {
+    // kd-tree clouds with a signed integer attribute end with one signed varint per component (the minimum that is added back):
+    // the sub-corpus may represent that code path by another stream, so the quick tier takes every such carrier of <= 120 bytes
+    std::vector<int> kd_signed;
+    for (int i : all_gen) {
+      const std::string &nm = g_corpus[i].name;
+      if (nm.compare(0, 2, "D:") == 0 && nm.find(":pos2:") != std::string::npos && nm.find(":m1:") != std::string::npos && g_corpus[i].bytes.size() <= 120) kd_signed.push_back(i);
+    }
+    add_space(R, "varint_kd_tree_signed_attributes", kd_signed, [](const Entry &e) { return (uint64_t)e.bytes.size() * kNumVarintPatterns; }, varint, mode0, true, false);
+  }
   // a very long run of varint continuation bytes at every offset: depth limits that are counted wrongly only show with
   // hundreds of thousands of bytes (one stack frame each)
   {
